@@ -3426,47 +3426,52 @@ impl<'a, F: VfsFile> BPlusTreeIterator<'a, F> {
 		}
 	}
 
-	/// Load the next leaf using the doubly-linked list
+	/// Load the next non-empty leaf using the doubly-linked list. A leaf whose entries were all
+	/// deleted stays in the list when it cannot be merged with a sibling, so empty leaves are
+	/// skipped.
 	fn advance_to_next_leaf(&mut self) -> Result<bool> {
-		if let Some(leaf) = &self.current_leaf {
-			if leaf.next_leaf == 0 {
-				return Ok(false);
-			}
+		loop {
+			let next_offset = match &self.current_leaf {
+				Some(leaf) if leaf.next_leaf != 0 => leaf.next_leaf,
+				_ => return Ok(false),
+			};
 
-			let node = self.tree.read_node(leaf.next_leaf)?;
+			let node = self.tree.read_node(next_offset)?;
 
 			match node.as_ref() {
 				NodeType::Leaf(next_leaf) => {
 					self.current_leaf = Some(next_leaf.clone());
 					self.current_idx = 0;
-					Ok(true)
+					if !next_leaf.keys.is_empty() {
+						return Ok(true);
+					}
 				}
-				_ => Err(BPlusTreeError::InvalidNodeType),
+				_ => return Err(BPlusTreeError::InvalidNodeType),
 			}
-		} else {
-			Ok(false)
 		}
 	}
 
-	/// Load the previous leaf using the doubly-linked list
+	/// Load the previous non-empty leaf using the doubly-linked list (see
+	/// `advance_to_next_leaf`).
 	fn retreat_to_prev_leaf(&mut self) -> Result<bool> {
-		if let Some(leaf) = &self.current_leaf {
-			if leaf.prev_leaf == 0 {
-				return Ok(false);
-			}
+		loop {
+			let prev_offset = match &self.current_leaf {
+				Some(leaf) if leaf.prev_leaf != 0 => leaf.prev_leaf,
+				_ => return Ok(false),
+			};
 
-			let node = self.tree.read_node(leaf.prev_leaf)?;
+			let node = self.tree.read_node(prev_offset)?;
 
 			match node.as_ref() {
 				NodeType::Leaf(prev_leaf) => {
 					self.current_leaf = Some(prev_leaf.clone());
 					self.current_idx = prev_leaf.keys.len().saturating_sub(1);
-					Ok(true)
+					if !prev_leaf.keys.is_empty() {
+						return Ok(true);
+					}
 				}
-				_ => Err(BPlusTreeError::InvalidNodeType),
+				_ => return Err(BPlusTreeError::InvalidNodeType),
 			}
-		} else {
-			Ok(false)
 		}
 	}
 }
